@@ -59,6 +59,12 @@ def file_for(kind, flavour):
     f.dims['t'] = [2, True]
     f.dims['z'] = [1, False]
     f.dims['x'] = [3, False]
+    if kind == 'bigendian':
+        # the 'dtypes' file with every numeric array held in non-native (big-endian) byte order in memory
+        g = file_for('dtypes', flavour)
+        g.bigendian = True
+        g.attrs['title'] = 'bigendian'
+        return g
     if kind == 'dtypes':
         dts = list(CLASSIC_DT) + (list(NC4_DT) if nc4 else [])
         shapes = [(('t', 'z', 'x'), (2, 1, 3)), (('t', 'x'), (2, 3)), (('x',), (3,)), (('z', 'x'), (1, 3))]
@@ -202,6 +208,10 @@ def build_real(rf):
                 kw[fk] = np.array(v.fill).astype(v.data.dtype)[()]
                 var = f.createVariable(k, tc, v.dims, **kw)
             var[...] = np.ma.MaskedArray(v.data.copy(), mask=v.mask.copy())
+        elif getattr(rf, 'bigendian', False) and v.data.dtype.kind in 'iuf' and v.data.dtype.itemsize > 1:
+            from PseudoNetCDF.core._variables import PseudoNetCDFVariable
+            be = v.data.astype(v.data.dtype.newbyteorder('>'))
+            f.variables[k] = PseudoNetCDFVariable(f, k, tc, v.dims, values=be, **kw)
         else:
             var = f.createVariable(k, tc, v.dims, **kw)
             var[...] = v.data.copy()
@@ -224,7 +234,7 @@ class Prop(core.Prop):
     ]
 
     def bounds(self, tier):
-        return {'kinds': ['dtypes', 'masked', 'attrs', 'dims'], 'flavours': FLAVOURS, 'complevel': [0, 1],
+        return {'kinds': ['dtypes', 'masked', 'attrs', 'dims', 'bigendian'], 'flavours': FLAVOURS, 'complevel': [0, 1],
                 'writers': WRITERS, 'prior_compressed_save': [False, True],
                 'grid_files': {fl: len(grid_recs(tier, fl)) for fl in FLAVOURS},
                 'grid_axes': {'dtypes': list(CLASSIC_DT) + list(NC4_DT), 'patterns': PATTERNS,
@@ -238,7 +248,7 @@ class Prop(core.Prop):
         atexit.register(shutil.rmtree, self.tmp, True)
 
     def groups(self, tier):
-        for kind in ('dtypes', 'masked', 'attrs', 'dims'):
+        for kind in ('dtypes', 'masked', 'attrs', 'dims', 'bigendian'):
             for fl in FLAVOURS:
                 yield {'kind': kind, 'flavour': fl}
         for fl in FLAVOURS:
@@ -337,7 +347,8 @@ class Prop(core.Prop):
             vscope = dict(scope, var=k, dtype=ev.data.dtype.str, fillkind=rf0.fillkinds.get(k))
             if gv.dims != ev.dims:
                 vs.append(viol('variable-dimensions', sig, '%s: %r != %r' % (k, gv.dims, ev.dims), **vscope))
-            if gv.data.dtype != ev.data.dtype:
+            # (byte order is a property of the in-memory array, not of the variable's type)
+            if gv.data.dtype.newbyteorder('=') != ev.data.dtype.newbyteorder('='):
                 vs.append(viol('dtype', sig, '%s: %s != %s' % (k, gv.data.dtype, ev.data.dtype), **vscope))
             if gv.data.shape != ev.data.shape:
                 vs.append(viol('shape', sig, '%s: %r != %r' % (k, gv.data.shape, ev.data.shape), **vscope))
